@@ -37,7 +37,7 @@ LEVEL.update({
  "C04": ("Codec agreement is decided as table/sequence equality extracted from the program: the six integer<->enum tables are mutually inverse, match the RFC code points and carry unlisted values through; the writer's and reader's field sequences agree per RDATA variant, for the header bit layout, question and RR prefix, and with an embedded RFC 1035/2782/3596 table; RDLENGTH back-patching, the 14-bit bound on memoised offsets, pointer emission and section counts have the required shapes. Equality decode(encode(m)) == m over all message values is declined.", "3/C04"),
 })
 LEVEL.update({
- "C03": ("Every panic-capable site (bounds assertions, slice ranges, arithmetic assertions, unwraps) in the 26 functions reachable from Message::from_octets is enumerated from MIR and discharged by a linear-constraint argument over dominating comparisons on the same cursor, range-loop indices, a magnitude rule for additions, or a checked structural justification; every decoder loop consumes input; the only recursion is the compression pointer with a strictly decreasing 14-bit offset; errors carry the header ID; the strictness guards (63/192/255/RDLENGTH) dominate acceptance; the reader layout equals the RFC table. Agreement with a reference decoder and the stack-overflow clause are declined (see DESIGN.md C03.4).", "3/C03"),
+ "C03": ("Every panic-capable site (bounds assertions, slice ranges, arithmetic assertions, unwraps) in the 26 functions reachable from Message::from_octets is enumerated from MIR and discharged by a linear-constraint argument over dominating comparisons on the same cursor, range-loop indices, a magnitude rule for additions, or a checked structural justification; every decoder loop consumes input; compression pointers are followed only to a strictly earlier 14-bit offset and no call cycle is reachable from the decoder (so the stack depth does not depend on the message); errors carry the header ID; the strictness guards (63/192/255/RDLENGTH) dominate acceptance; the reader layout equals the RFC table. Agreement with a reference decoder is declined (DESIGN.md section 3/C03).", "3/C03"),
 })
 LEVEL.update({
  "C17": ("All panic-capable sites in the 44 functions reachable from Zone::deserialise / Hosts::deserialise (72 indexing sites, string slices, arithmetic assertions, unwraps) are enumerated from MIR and discharged by linear constraints over dominating length comparisons (all guard shapes: >=, ==, match guards, early-return disjunctions via CUT-REACH), range-loop / iterator-non-empty facts, or checked structural justifications; every parser loop consumes input; recursion is on a strictly shorter label slice; the loader turns errors into the failure flag.", "3/C17"),
@@ -96,7 +96,7 @@ m = {
  "hooks": {"guard": "resolved_verif", "enable": "no hooks: the analysis reads the compiler's MIR of the unmodified sources (RUSTC_WORKSPACE_WRAPPER driver)", "baseline_off_cmd": "cd /repo && cargo test --workspace --no-fail-fast --offline", "source_commits": [], "add_only": True},
  "engines": [
   {"name": "mirfacts", "path": "mirfacts/", "serves_properties": [c["property_id"] for c in checks], "kind_free_text": "rustc_private driver hooking the mir_built query; dumps MIR, ADTs, consts, impls, unsafe inventory of all nine workspace targets as JSON"},
-  {"name": "rules", "path": "rules/", "serves_properties": [c["property_id"] for c in checks], "kind_free_text": "Python rule library: CFG, dominators, reaching definitions / ORIGIN, edge conditions, CUT-REACH guards, who-calls/constructs/writes, per-property rule instances"},
+  {"name": "rules", "path": "rules/", "serves_properties": [c["property_id"] for c in checks], "kind_free_text": "Python rule library over a normal form of the MIR (calls to new helpers and awaited new async helpers expanded, iterator pipelines / Option-Result combinators rewritten as loops / matches with closures spliced in): CFG, dominators, reaching definitions / ORIGIN, edge conditions, CUT-REACH guards, who-calls/constructs/writes, per-property rule instances"},
  ],
  "checks": checks,
  "not_applicable": na,
